@@ -73,7 +73,7 @@ def obj(x):
             return _np.empty((0,), dtype=object)
         out = _np.empty((len(parts),) + parts[0].shape, dtype=object)
         for i, p in enumerate(parts):
-            out[i] = p
+            out[i] = p if p.ndim else p[()]
         return out
     a = _np.asarray(x)
     if a.dtype == object:
